@@ -28,5 +28,6 @@ def run(ctx):
     fmm.point_map_bounds(ctx)
     fmm.transform_rows(ctx)
     fmm.maxwell_terms(ctx)
+    fmm.near_field_layout(ctx)
     c11.edge_convention(ctx)
     rules.kernel_specs(ctx, ("laplace", "helmholtz", "modified_helmholtz"), include_singular=False)
